@@ -135,13 +135,9 @@ func c06Transient(d *c12Dag, via string, x *xplore.Ctx, viol func(sig, detail st
 		if c.Equals(d.root) {
 			return nil
 		}
-		switch x.Choose(3, "load") {
-		case 1:
+		if k := x.Choose(1+len(store.AllKinds), "load"); k > 0 {
 			failed++
-			return store.MakeErr(store.NotFound, c)
-		case 2:
-			failed++
-			return store.MakeErr(store.IOError, c)
+			return store.MakeErr(store.AllKinds[k-1], c)
 		}
 		return nil
 	}
@@ -213,7 +209,7 @@ func runC06(r *core.Run) {
 			c06FetchSet(d, func(sig, detail string) { r.Violate(sig, detail, c06Replay{Case: c}) }, r)
 			for _, via := range c06Vias {
 				for _, b := range d.blocks {
-					for _, kind := range []store.ErrKind{store.NotFound, store.IOError} {
+					for _, kind := range store.AllKinds {
 						withheld.add(1)
 						c06Withheld(d, via, b, kind, func(sig, detail string) {
 							r.Violate(sig, detail, c06Replay{Case: c, Via: via, Missing: b.String(), Kind: int(kind)})
